@@ -290,9 +290,9 @@ func (h *hnode) freeOutcome(it item, callback bool) outcome {
 	switch x := hv % 100; {
 	case x < 14:
 		return outcome{kind: 0}
-	case x < 30:
+	case x < 14+h.r.failPct:
 		return outcome{kind: 1, err: int64(hv>>8%3) + 1}
-	case x < 62 && h.kind == 2 && !callback:
+	case x < 46+h.r.failPct && h.kind == 2 && !callback:
 		return outcome{kind: 2}
 	default:
 		n := 1
@@ -571,7 +571,7 @@ func newRT(lock bool, seed uint64) *rt {
 	caseSeq++
 	r := &rt{prefix: fmt.Sprintf("k%d_", caseSeq), lock: lock, seed: seed, nodes: map[string]*hnode{}, idOf: map[string]int64{},
 		srcCmd: make(chan srcCmd), errs: map[string]*errInfo{}, done: make(chan struct{}),
-		stall: map[int64]bool{}, slow: map[int64]bool{}, stallCh: make(chan struct{}), srcEnded: make(chan struct{})}
+		stall: map[int64]bool{}, slow: map[int64]bool{}, failPct: 16, stallCh: make(chan struct{}), srcEnded: make(chan struct{})}
 	cur = r
 	curMu.Unlock()
 	return r
